@@ -59,7 +59,7 @@ func genDirectiveLine(r *Rng) (string, string) {
 		}
 	case 6:
 		kind = "comment"
-		body = "##!" + r.Pick([]string{"", " ", " note", " ##!> include inc", "x", "! bang", " ^ $ +", "\t", "é", "#", " ##!+ i", "-", " +s", " + i", " ^x", " $y", " >assemble", " <", " =>", "\t+s"}) + r.Pick([]string{"", " text", " ##!> assemble"})
+		body = "##!" + r.Pick([]string{"", " ", " note", " ##!> include inc", " old: ##!> define x v", " ##!> define a-b_9 [0-9]", "x", "! bang", " ^ $ +", "\t", "é", "#", " ##!+ i", "-", " +s", " + i", " ^x", " $y", " >assemble", " <", " =>", "\t+s"}) + r.Pick([]string{"", " text", " ##!> assemble"})
 	case 7:
 		kind = "flags"
 		body = "##!+" + genWs(r) + r.Pick([]string{"i", "s", "is", "si", "i s", "", "x", "im", "I", "ii"})
